@@ -147,12 +147,27 @@ def run(plugin, prop, tier, seed, t0):
             notes.append('translator round trip differs for tables: %s' % tables['differing_tables'])
     # 5+6. correspondence and failing-input search
     common.repo_src()
-    res = plugin.run(ctx)
+    def guarded(mod):
+        # a plugin that cannot cope with what the implementation does (an exception in the harness, a run the fake network had to abort) on a tree whose
+        # source differs from the validated baseline is a broken correspondence, not a machinery error: the property is no longer shown to hold
+        try:
+            return mod.run(ctx)
+        except (KeyboardInterrupt, SystemExit, TimeoutError):
+            raise
+        except BaseException:
+            if not common.source_changed():
+                raise
+            tb = traceback.format_exc()
+            print('harness stage %s failed on a changed tree:\n%s' % (mod.__name__, tb[-1500:]))
+            cov_ = common.Coverage('the stage raised before it could count its cases')
+            return {'failures': [], 'coverage': cov_, 'corr_cases': 0,
+                    'mismatches': [{'stream': 'harness:' + mod.__name__, 'op': 'run(ctx)', 'model': 'the behaviour of the validated tree', 'impl': 'the harness could not process what the implementation did: ' + tb[-900:]}]}
+    res = guarded(plugin)
     mismatches = res.get('mismatches', [])
     failures = res.get('failures', [])
     cov = res['coverage']
     for ext in extensions:
-        rext = ext.run(ctx)
+        rext = guarded(ext)
         for f in rext.get('failures', []):
             f.setdefault('extension', ext.__name__)
         mismatches = mismatches + rext.get('mismatches', [])
